@@ -2,7 +2,7 @@
 from __future__ import annotations
 
 from harness.framework import Violation
-from harness.seqprop import SeqProp, slots_of
+from harness.seqprop import indep_fall, SeqProp, slots_of
 from pulser import Pulse
 from pulser.sequence._schedule import _ChannelSchedule
 
@@ -48,7 +48,7 @@ class C10(SeqProp):
                         break
                 if lps is not None and float(lps.type.phase) != float(new.type.phase):
                     ie = cs.in_eom_mode()
-                    need = max(ch.phase_jump_time, 2 * ch.rise_time * ie) + lps.type.fall_time(ch, in_eom_mode=ie)
+                    need = max(ch.phase_jump_time, 2 * ch.rise_time * ie) + indep_fall(lps.type, ch, ie)
                     gap = new.ti - lps.tf
                     if gap < need:
                         bad(
@@ -88,7 +88,7 @@ class C10(SeqProp):
                     for q in reversed(before):
                         if isinstance(q.type, Pulse):
                             ie = st["eom_before"].get(name, False)
-                            end = q.tf + q.type.fall_time(ch, in_eom_mode=ie)
+                            end = q.tf + indep_fall(q.type, ch, ie)
                             if t.ti < end:
                                 bad("retarget-before-ramp-down", f"channel {name}: retarget begins at {t.ti}, previous pulse ramps down until {end}")
                             break
